@@ -14,6 +14,7 @@ import (
 	"crypto/rand"
 	"crypto/rsa"
 	"crypto/sha256"
+	"crypto/tls"
 	"crypto/x509"
 	"encoding/json"
 	"encoding/pem"
@@ -1158,6 +1159,253 @@ func (x *c12Run) runAudienceFlows(s *c12Site, authz *[]c12Authz) []c12Flow {
 	return flows
 }
 
+// ---------------------------------------------------------------- the connection dimension
+//
+// "The ID token names THIS server as issuer" whatever name the caller used to reach it: the Host header
+// and the server name of the TLS handshake are both chosen by the caller (Go's TLS server completes the
+// handshake with its default certificate for an unknown name).  Token endpoint, userinfo and the
+// discovery document are driven over every combination {absent, the server's own name, a foreign name
+// in both, a different name in each}.
+
+type c12Conn struct {
+	name, host string
+	tls        bool
+	sni        string
+}
+
+func c12ConnVariants(own string) []c12Conn {
+	return []c12Conn{
+		{"no-tls-no-host", "", false, ""},
+		{"own-name", own, true, own},
+		{"own-name-with-port", own + ":443", true, own},
+		{"own-name-no-sni", own, true, ""},
+		{"own-name-no-tls", own, false, ""},
+		{"foreign-name-in-both", "accounts.idp.example", true, "accounts.idp.example"},
+		{"foreign-name-in-both-with-port", "login.other.example:8443", true, "login.other.example"},
+		{"foreign-host-own-sni", "accounts.idp.example", true, own},
+		{"own-host-foreign-sni", own, true, "accounts.idp.example"},
+		{"different-foreign-name-in-each", "a.other.example", true, "b.other.example"},
+		{"foreign-host-no-sni", "accounts.idp.example", true, ""},
+		{"foreign-host-no-tls", "accounts.idp.example", false, ""},
+		{"no-host-foreign-sni", "", true, "accounts.idp.example"},
+	}
+}
+
+func (v c12Conn) apply(req *http.Request) *http.Request {
+	req.Host = v.host
+	req.TLS = nil
+	if v.tls {
+		req.TLS = &tls.ConnectionState{Version: tls.VersionTLS12, HandshakeComplete: true, ServerName: v.sni}
+	}
+	return req
+}
+
+func (v c12Conn) coq() string {
+	sni := "None"
+	if v.tls {
+		sni = "Some " + coqStr(v.sni)
+	}
+	return fmt.Sprintf("{| cn_host := %s; cn_sni := %s |}", coqStr(v.host), sni)
+}
+
+func (v c12Conn) what() map[string]interface{} {
+	return map[string]interface{}{"connection": v.name, "host_header": v.host, "tls": v.tls, "tls_server_name": v.sni}
+}
+
+type c12ConnUserinfo struct {
+	conn     c12Conn
+	tok      *symTok
+	t0, t1   int64
+	answered bool
+	user     string
+	label    string
+}
+
+type c12ConnDiscovery struct {
+	conn          c12Conn
+	ok            bool
+	issuer, uiURL string
+	label         string
+}
+
+const c12IssuerKey = "C12:idtoken:issuer-follows-request"
+const c12IssuerOracle = "the issuer named in ID tokens, access tokens and the discovery document is this server's configured issuer, whatever Host header and TLS server name the caller announced"
+
+func (x *c12Run) runConnFlows(s *c12Site, prod *c04Produced) (flows []c12Flow, uis []c12ConnUserinfo, discs []c12ConnDiscovery) {
+	env, t := s.env, x.t
+	own := env.state.HostIdentity
+	userinfoURL := s.issuer + idpOpenIDCUserinfoPath
+	userinfoVia := func(v c12Conn, raw string) (string, bool) {
+		req := verifNewRequest("GET", idpOpenIDCUserinfoPath, nil)
+		req.Header.Set("Authorization", "Bearer "+raw)
+		rr, _ := env.serve(v.apply(req))
+		var ui openidConnectUserInfo
+		if rr.Code != 200 || json.Unmarshal(rr.Body.Bytes(), &ui) != nil {
+			return "", false
+		}
+		return ui.Subject, true
+	}
+	ownConn := c12Conn{"own-name", own, true, own}
+	for _, v := range c12ConnVariants(own) {
+		v := v
+		// ---- the discovery document
+		{
+			rr, _ := env.serve(v.apply(verifNewRequest("GET", idpOpenIDCConfigurationDocumentPath, nil)))
+			d := c12ConnDiscovery{conn: v, label: "discovery over " + v.name}
+			var md map[string]interface{}
+			if rr.Code == 200 && json.Unmarshal(rr.Body.Bytes(), &md) == nil {
+				d.ok = true
+				d.issuer, _ = md["issuer"].(string)
+				d.uiURL, _ = md["userinfo_endpoint"].(string)
+				if d.issuer != s.issuer {
+					x.hit(c12IssuerKey, c12IssuerOracle, fmt.Sprintf("discovery document fetched over %s names issuer %q, configured is %q", v.name, d.issuer, s.issuer), v.what(), md)
+				}
+				for _, m := range []string{"authorization_endpoint", "token_endpoint", "userinfo_endpoint", "jwks_uri"} {
+					if u, _ := md[m].(string); !strings.HasPrefix(u, s.issuer+"/") {
+						x.hit(c12IssuerKey, c12IssuerOracle, fmt.Sprintf("discovery document fetched over %s: %s = %q is not under the configured issuer %q", v.name, m, u, s.issuer), v.what(), md)
+					}
+				}
+			}
+			d.label += fmt.Sprintf("\tstatus=%d issuer=%q", rr.Code, d.issuer)
+			discs = append(discs, d)
+			x.res.eval("conn|discovery|"+v.name, true)
+			x.res.bump("conn-discovery")
+		}
+		// ---- the token endpoint: client with a secret (header), secret-less client (form, PKCE), client with a chosen audience
+		for _, fc := range []struct {
+			label, client, secret, user string
+			ck                          int
+			extra                       url.Values
+		}{
+			{"secret", c04ClientA, c04SecretA, "alice", 4, nil},
+			{"pkce", c04ClientB, "", "bob", 0, nil},
+			{"secret+audience", c04ClientA, c04SecretA, "alice", 4, url.Values{"audience": {c12Audience}}},
+		} {
+			chal, meth := c12Challenge(fc.ck)
+			extra := url.Values{"nonce": {c12Nonce}}
+			if chal != "" {
+				extra.Set("code_challenge", chal)
+				extra.Set("code_challenge_method", meth)
+			}
+			for k, val := range fc.extra {
+				extra[k] = val
+			}
+			raw, status := env.c04Authorize(t, fc.user, fc.client, c12RedirectSame, extra)
+			if raw == "" {
+				t.Fatalf("connection flows: authorize refused client=%s: %d", fc.client, status)
+			}
+			code := newSymTok(raw, s.sid, false, "code(authorize endpoint) for the connection flow "+fc.label)
+			form := url.Values{"grant_type": {"authorization_code"}, "code": {raw}, "redirect_uri": {c12RedirectSame}}
+			verifier, vh, basicCoq, fcl := "", "", "None", ""
+			req := (*http.Request)(nil)
+			if fc.secret == "" {
+				verifier, vh, fcl = c12V, c12S256(c12V), fc.client
+				form.Set("code_verifier", verifier)
+				form.Set("client_id", fc.client)
+				req = verifNewRequest("POST", idpOpenIDCTokenPath, form)
+			} else {
+				req = verifNewRequest("POST", idpOpenIDCTokenPath, form)
+				req.SetBasicAuth(fc.client, fc.secret)
+				basicCoq = fmt.Sprintf("Some (%s, %s)", coqStr(fc.client), coqStr(fc.secret))
+			}
+			f0 := time.Now().UnixNano()
+			rr, _ := env.serve(v.apply(req))
+			f1 := time.Now().UnixNano()
+			var tr tokenResponse
+			ok := rr.Code == 200 && json.Unmarshal(rr.Body.Bytes(), &tr) == nil && tr.IDToken != ""
+			fl := c12Flow{t0: f0, t1: f1, released: ok, label: fmt.Sprintf("token request over %s (Host %q, TLS %v, server name %q) client=%s flow=%s\tstatus=%d released=%v", v.name, v.host, v.tls, v.sni, fc.client, fc.label, rr.Code, ok)}
+			fl.coq = fmt.Sprintf("{| tr_conn := %s; tr_post := true; tr_grant := %s; tr_redirect := %s; tr_code := %s; tr_verifier := %s; tr_vhash := %s; tr_basic := %s; tr_form_client := %s; tr_form_secret := [] |}",
+				v.coq(), coqStr("authorization_code"), coqStr(c12RedirectSame), env.coqToken(code), coqStr(verifier), coqStr(vh), basicCoq, coqStr(fcl))
+			x.res.eval("conn|token|"+v.name+"|"+fc.label+fmt.Sprint(ok), true)
+			x.res.bump("conn-token")
+			w := v.what()
+			w["client"], w["flow"] = fc.client, fc.label
+			if ok {
+				fl.idt = newSymTok(tr.IDToken, s.sid, false, "id(connection flow)")
+				fl.act = newSymTok(tr.AccessToken, s.sid, false, "access(connection flow)")
+				if iss, _ := fl.idt.claims["iss"].(string); iss != s.issuer {
+					x.hit(c12IssuerKey, c12IssuerOracle, fmt.Sprintf("ID token released over %s names issuer %q, configured is %q", v.name, iss, s.issuer), w, map[string]interface{}{"id_token_claims": fl.idt.claims})
+				}
+				if iss, _ := fl.act.claims["iss"].(string); iss != s.issuer {
+					x.hit(c12IssuerKey, c12IssuerOracle, fmt.Sprintf("access token released over %s names issuer %q, configured is %q", v.name, iss, s.issuer), w, map[string]interface{}{"access_token_claims": fl.act.claims})
+				}
+				if aud, isList := c12StrList(fl.act.claims["aud"]); fc.extra != nil && (!isList || len(aud) != 2 || aud[1] != userinfoURL) {
+					x.hit(c12IssuerKey, c12IssuerOracle, fmt.Sprintf("access token released over %s has aud = %v, expected [%s, %s]", v.name, fl.act.claims["aud"], c12Audience, userinfoURL), w, map[string]interface{}{"access_token_claims": fl.act.claims})
+				}
+				if verified, kidOK, _ := s.jwks.verifies(tr.IDToken, &openIDConnectIDToken{}); !verified || !kidOK {
+					x.hit("C12:idtoken:not-under-jwks:"+s.name, "every released ID token must verify under a key served by /idp/oauth2/jwks, selected by kid", "ID token released over "+v.name+" does not verify under the published JWKS", w, nil)
+				}
+				// the access token at userinfo, reached under the server's own name and over this connection
+				u, answered := userinfoVia(ownConn, tr.AccessToken)
+				fl.userinfo, fl.uiAnswered = u, answered
+				if !answered || u != fc.user {
+					x.hit("C12:userinfo:subject", "the access token must make userinfo return the user of the authorization step",
+						fmt.Sprintf("userinfo (reached under the server's own name) answered %q (answered=%v) for the access token released over %s for a code minted for %q", u, answered, v.name, fc.user), w, map[string]interface{}{"access_token_claims": fl.act.claims})
+				}
+				c0 := time.Now().UnixNano()
+				u2, answered2 := userinfoVia(v, tr.AccessToken)
+				c1 := time.Now().UnixNano()
+				uis = append(uis, c12ConnUserinfo{conn: v, tok: fl.act, t0: c0, t1: c1, answered: answered2, user: u2,
+					label: fmt.Sprintf("userinfo over %s for the access token released over it (flow %s)\tanswered=%v user=%q", v.name, fc.label, answered2, u2)})
+				if !answered2 || u2 != fc.user {
+					x.hit("C12:userinfo:subject", "the access token must make userinfo return the user of the authorization step",
+						fmt.Sprintf("userinfo over %s answered %q (answered=%v) for the access token of a code minted for %q", v.name, u2, answered2, fc.user), w, nil)
+				}
+			}
+			flows = append(flows, fl)
+		}
+		// ---- userinfo over this connection: the server's own access token, and one naming the announced host as issuer
+		{
+			c0 := time.Now().UnixNano()
+			u, answered := userinfoVia(v, prod.access.raw)
+			c1 := time.Now().UnixNano()
+			uis = append(uis, c12ConnUserinfo{conn: v, tok: prod.access, t0: c0, t1: c1, answered: answered, user: u,
+				label: fmt.Sprintf("userinfo over %s for an access token released under the server's own name\tanswered=%v user=%q", v.name, answered, u)})
+			if !answered || u != "alice" {
+				x.hit("C12:userinfo:issuer-follows-request", "userinfo answers for this server's own access tokens whatever name the caller announced, and for no token of another issuer",
+					fmt.Sprintf("userinfo over %s answered %q (answered=%v) for an access token this server released to alice", v.name, u, answered), v.what(), nil)
+			}
+			claims := cloneClaims(prod.access.claims)
+			claims["iss"] = "https://" + v.host
+			forged := env.tokServerSigned(claims, "access token with iss = https://<the announced host> server-key")
+			c0 = time.Now().UnixNano()
+			u, answered = userinfoVia(v, forged.raw)
+			c1 = time.Now().UnixNano()
+			uis = append(uis, c12ConnUserinfo{conn: v, tok: forged, t0: c0, t1: c1, answered: answered, user: u,
+				label: fmt.Sprintf("userinfo over %s for an access token naming https://%s as issuer\tanswered=%v user=%q", v.name, v.host, answered, u)})
+			if answered && claims["iss"] != s.issuer {
+				x.hit("C12:userinfo:issuer-follows-request", "userinfo answers for this server's own access tokens whatever name the caller announced, and for no token of another issuer",
+					fmt.Sprintf("userinfo over %s answered %q for an access token whose iss is %q", v.name, u, claims["iss"]), v.what(), nil)
+			}
+			x.res.eval("conn|userinfo|"+v.name, true)
+			x.res.bump("conn-userinfo")
+		}
+	}
+	return
+}
+
+func c12CoqFlows(env *verifEnv, name string, flows []c12Flow) string {
+	var sb strings.Builder
+	sb.WriteString("Definition " + name + " : list flow := [\n")
+	for i, f := range flows {
+		sep := ";"
+		if i == len(flows)-1 {
+			sep = ""
+		}
+		obs := "None"
+		if f.released {
+			ui := "None"
+			if f.uiAnswered {
+				ui = "Some " + coqStr(f.userinfo)
+			}
+			obs = fmt.Sprintf("Some (%s, %s, %s)", env.coqClaims(f.idt), env.coqClaims(f.act), ui)
+		}
+		sb.WriteString(fmt.Sprintf(" (%s, (%d)%%Z, (%d)%%Z, %s)%s\n", f.coq, f.t0, f.t1, obs, sep))
+	}
+	sb.WriteString("].\n")
+	return sb.String()
+}
+
 func TestVerif_C12(t *testing.T) {
 	verifWriteConsts(t)
 	res := newVerifResult("token endpoint over the full product: caller {client with secret, secret-less client, unknown} x secret {right, wrong, none} x verifier {right, wrong, none} x challenge bound into the code {S256, plain, empty method, unknown method, none} x redirect_uri {same, other, absent, empty, same with trailing slash, same in upper case, sent twice same first, sent twice other first} x code {fresh, expired, tampered, issued to the other client, a session cookie, an access token} x credentials in {header, form, header url-escaped} = 19440 requests (codes from the real authorize endpoint where it admits the challenge method, otherwise signed in-package); the sub-product of 288 requests plus 9 authorization requests on each of four more daemon states (signer RSA-3072, P-256, P-384, P-521, each with an Ed25519 SSH CA; key files through the configuration surface), KeymasterPublicKeys / JWKS / discovery of each compared with the model, two key-file sets the daemon must refuse; every released ID token decoded and verified under the published key its kid names, every released access token taken to userinfo; ~70 authorization requests; audience flows: 4 clients {allow_client_chose_audiences or not} x {secret, PKCE} x 12 shapes of the authorization request's audience parameter {absent, under the client's domains, foreign, near misses, several values}, every issued code redeemed with header / form / wrong credentials, ID token audience compared with [client] and access token audience with [chosen, userinfo] for exact equality; ~60 userinfo probes (other kinds, audiences, header/form/query); non-trivial = the request passed client lookup; distinct by combination")
@@ -1518,6 +1766,10 @@ func TestVerif_C12(t *testing.T) {
 	flows := x.runAudienceFlows(main, &authz)
 	res.Extra["audience_flows"] = len(flows)
 
+	// ---- the connection dimension: Host header / TLS server name at the token endpoint, userinfo, discovery
+	connFlows, connUis, connDiscs := x.runConnFlows(main, prod)
+	res.Extra["connection_flows"] = len(connFlows)
+
 	// ---- userinfo probes
 	type uiCase struct {
 		tok      *symTok
@@ -1775,6 +2027,43 @@ func TestVerif_C12(t *testing.T) {
 	sb.WriteString("Definition c12_violating := Eval vm_compute in violating_of (flow_bad c12_idp) (flow_violating c12_idp) flow_cases.\nPrint c12_violating.\n")
 	sb.WriteString("Definition c12_violating_access := Eval vm_compute in violating_of (flow_bad c12_idp) (flow_violating_access c12_idp) flow_cases.\nPrint c12_violating_access.\n")
 	sb.WriteString(fmt.Sprintf("Definition c12_release_violating := Eval vm_compute in release_violating_on all_combos c12_idp c12_env (%d)%%Z (%d)%%Z released_cases.\nPrint c12_release_violating.\n", t0, t1))
+	// the connection dimension
+	sb.WriteString(c12CoqFlows(env, "conn_cases", connFlows))
+	sb.WriteString("Definition c12_conn_mismatches := Eval vm_compute in mismatches (flow_bad c12_idp) conn_cases.\nPrint c12_conn_mismatches.\n")
+	sb.WriteString("Definition c12_conn_violating := Eval vm_compute in violating_of (flow_bad c12_idp) (flow_violating_issuer c12_idp) conn_cases.\nPrint c12_conn_violating.\n")
+	{
+		var l, d, ixF, ixU, ixD []string
+		for _, u := range connUis {
+			obs := "None"
+			if u.answered {
+				obs = "Some " + coqStr(u.user)
+			}
+			l = append(l, fmt.Sprintf(" (%s, %s, (%d)%%Z, (%d)%%Z, %s)", u.conn.coq(), env.coqToken(u.tok), u.t0, u.t1, obs))
+			ixU = append(ixU, u.label)
+		}
+		for _, c := range connDiscs {
+			obs := "None"
+			if c.ok {
+				obs = fmt.Sprintf("Some (%s, %s)", coqStr(c.issuer), coqStr(c.uiURL))
+			}
+			d = append(d, fmt.Sprintf(" (%s, %s)", c.conn.coq(), obs))
+			ixD = append(ixD, c.label)
+		}
+		for _, f := range connFlows {
+			ixF = append(ixF, f.label)
+		}
+		sb.WriteString("Definition conn_userinfo_cases : list (conn * token * Z * Z * option bs) := [\n" + strings.Join(l, ";\n") + "].\n")
+		sb.WriteString("Definition c12_conn_userinfo_mismatches := Eval vm_compute in mismatches (userinfo_conn_bad c12_idp) conn_userinfo_cases.\nPrint c12_conn_userinfo_mismatches.\n")
+		sb.WriteString("Definition conn_discovery_cases : list (conn * option (bs * bs)) := [\n" + strings.Join(d, ";\n") + "].\n")
+		sb.WriteString("Definition c12_conn_discovery_mismatches := Eval vm_compute in mismatches (discovery_bad c12_idp) conn_discovery_cases.\nPrint c12_conn_discovery_mismatches.\n")
+		for file, lines := range map[string][]string{"CasesC12_conn.idx": ixF, "CasesC12_conn_userinfo.idx": ixU, "CasesC12_conn_discovery.idx": ixD} {
+			var ix strings.Builder
+			for n, line := range lines {
+				ix.WriteString(fmt.Sprintf("%d\t%s\n", n, line))
+			}
+			ioutil.WriteFile(filepath.Join(verifOut(), file), []byte(ix.String()), 0644)
+		}
+	}
 	sb.WriteString("Definition userinfo_cases : list (token * Z * Z * option bs) := [\n")
 	for i, u := range uis {
 		sep := ";"
